@@ -60,7 +60,7 @@ INVARIANT FirstIsSameKey
 """
 
 # argument combinations of the histories: (level, posterior_threshold, tails)
-HIST_ARGS = {1: (0.9, 0.0, 1), 2: (0.8, 0.5, 2)}
+HIST_ARGS = {1: (0.9, 0.0, 1), 2: (0.8, 0.4871, 2)}
 LEVELS = [0.8, 0.9]
 # (level, tails, threshold mode): threshold 0 or an estimate-sized value
 COMBOS = [(lv, tl, th) for lv in LEVELS for tl in (1, 2) for th in ('zero', 'est')]
@@ -321,7 +321,7 @@ def part_variable(mods, r, part, seed, nsims):
   except Exception as e:  # pylint: disable=broad-except
     return [('FitIsTotal', '%s: %s' % (type(e).__name__, e), None)]
   for level, tails, mode in part['combos']:
-    thr = 0.0 if mode == 'zero' else 0.5
+    thr = 0.0 if mode == 'zero' else 0.4871   # not a ratio of small integers: a degenerate constant simulated ratio cannot sit on it
     tag = '(level %g tails %d threshold %g random_state %d)' % (level, tails, thr, part['rs'])
     try:
       row = row_of(m.summary(level=level, posterior_threshold=thr, tails=tails, nsims=nsims, random_state=part['rs']))
@@ -367,7 +367,7 @@ def part_equiv(mods, r, part, seed, nsims):
     return [('FitIsTotal', '%s: %s' % (type(e).__name__, e), None)]
   est = float(frac(r['est'])) if not variable else 0.0
   for level, tails, mode in part['combos']:
-    thr = 0.0 if mode == 'zero' else (0.5 if variable else threshold(mode, est))
+    thr = 0.0 if mode == 'zero' else (0.4871 if variable else threshold(mode, est))
     tag = '(cost x %g, response x %g, level %g tails %d threshold %g random_state %d)' % (a, b, level, tails, thr, part['rs'])
     try:
       r0 = row_of(m0.summary(level=level, posterior_threshold=thr, tails=tails, nsims=nsims, random_state=part['rs']))
